@@ -405,7 +405,7 @@ def hist_tensor_linalg(ctx, rng, nprng):
     elif which == "block":
         yastn.block({(0, 0): a, (1, 1): a}, common_legs=(1, 3))
     else:
-        v = yastn.rand(a.config, legs=[l1.to_yastn(), l2.to_yastn()], n=G.zero(sym))
+        v = yastn.rand(a.config, legs=[a.get_legs(2).conj(), a.get_legs(3).conj()], n=G.zero(sym))   # matches a also when a is lazily transposed
         if v.size:
             f = lambda x: yastn.tensordot(a, x, axes=((2, 3), (0, 1)))
             yastn.expmv(f, v, t=0.1, tol=1e-8, ncv=3)
